@@ -47,7 +47,8 @@ class Refuse(Exception):
     pass
 
 
-COQTY = {'Z': 'Z', 'Q': 'Q', 'B': 'bool', 'S': 'string', 'OQ': 'option Q', 'OZ': 'option Z', 'LS': 'list string'}
+COQTY = {'Z': 'Z', 'Q': 'Q', 'B': 'bool', 'S': 'string', 'OQ': 'option Q', 'OZ': 'option Z', 'LS': 'list string',
+         'LZ': 'list Z'}         # [loop ties C06] LZ: a 1-d integer array / list of ints, as a value
 
 
 COQ_RESERVED = {'end', 'match', 'with', 'in', 'let', 'fun', 'if', 'then', 'else', 'as', 'at', 'return', 'forall', 'exists',
@@ -168,6 +169,10 @@ class FnTranslator:
             if key in env:
                 return env[key]
             raise Refuse('%s: unknown attribute %s' % (self.rel, key))
+        if isinstance(n, ast.Subscript):
+            r = self.int_list_subscript(n, env)           # [loop ties C06] x[0], x[-1], x[1:], x[:-1], np.r_[...] on LZ
+            if r is not None:
+                return r
         if isinstance(n, ast.Subscript) and not isinstance(n.slice, (ast.Constant, ast.Tuple, ast.Slice)):
             # elementwise view of numpy code: v[mask] is v itself, read under the guard `mask`
             # (only legal where the result is consumed under the same mask; checked at the use site)
@@ -354,11 +359,63 @@ class FnTranslator:
         if isinstance(n, ast.IfExp):
             c = self.cond(n.test, env)
             a, b = self.expr(n.body, env), self.expr(n.orelse, env)
+            if getattr(n, '_elem_store', False) and b[1] == 'B' and a[1] == 'Z':
+                a = (self.truthy(a), 'B')          # [loop ties C07/C14] an int stored into a boolean array: nonzero is True
             a, b, ty = self.unify(a, b)
             return ('(if %s then %s else %s)' % (c, a, b), ty)
         if isinstance(n, ast.Call):
             return self.call(n, env)
         raise Refuse('%s: unsupported expression %s' % (self.rel, type(n).__name__))
+
+    def int_list_subscript(self, n, env):
+        """[loop ties C06] integer lists (type LZ: a Python list of ints or a 1-d integer numpy array, read as a value).
+        Only these forms, each with exactly the meaning of the emitted Gallina:
+          np.r_[a, X, ...]  (a : Z, X : LZ)  concatenation                  -> [a] ++ X ++ ...
+          x[1:]                              all but the first (empty stays empty) -> tl x
+          x[:-1]                             all but the last  (empty stays empty) -> removelast x
+          x[0], x[-1]                        first / last element; IndexError on an empty x is an error path outside
+                                             the translation (recorded like a raise guard)      -> hd 0 x / last x 0
+        Returns None when `n` is not one of them (the caller goes on with the other readings of a subscript)."""
+        def neg1(e):
+            return isinstance(e, ast.UnaryOp) and isinstance(e.op, ast.USub) and isinstance(e.operand, ast.Constant) \
+                and e.operand.value == 1 and not isinstance(e.operand.value, bool)
+        def const(e, k):
+            return isinstance(e, ast.Constant) and e.value == k and not isinstance(e.value, bool) and isinstance(e.value, int)
+        if isinstance(n.value, ast.Attribute) and n.value.attr == 'r_' and isinstance(n.value.value, ast.Name) \
+                and n.value.value.id in ('np', 'numpy'):
+            items = n.slice.elts if isinstance(n.slice, ast.Tuple) else [n.slice]
+            parts = []
+            for it in items:
+                if isinstance(it, (ast.Slice, ast.Starred)):
+                    raise Refuse('%s: np.r_ with a slice item' % self.rel)
+                v = self.expr(it, env)
+                if v[1] == 'Z':
+                    parts.append('[%s]' % v[0])
+                elif v[1] == 'LZ':
+                    parts.append(v[0])
+                else:
+                    raise Refuse('%s: np.r_ item of type %s (only integers and integer lists)' % (self.rel, v[1]))
+            return ('(' + ' ++ '.join(parts) + ')%list', 'LZ')
+        try:
+            key = ast.unparse(n.value)
+        except Exception:
+            return None
+        if env.get(key, ('', ''))[1] != 'LZ':
+            return None
+        x = env[key][0]
+        sl = n.slice
+        if isinstance(sl, ast.Slice):
+            if sl.step is None and sl.upper is None and const(sl.lower, 1):
+                return ('(tl %s)' % x, 'LZ')
+            if sl.step is None and sl.lower is None and neg1(sl.upper):
+                return ('(removelast %s)' % x, 'LZ')
+            raise Refuse('%s: slice %s of an integer list (only [1:] and [:-1])' % (self.rel, ast.unparse(n)))
+        if const(sl, 0) or neg1(sl):
+            g = 'len(%s) == 0   (IndexError at %s)' % (key, ast.unparse(n))
+            if g not in self.guards:
+                self.guards.append(g)
+            return ('(hd 0 %s)' % x if const(sl, 0) else '(last %s 0)' % x, 'Z')
+        raise Refuse('%s: index %s of an integer list (only [0] and [-1])' % (self.rel, ast.unparse(n)))
 
     def to_text(self, tv, what):
         """str(v) / f'{v}' of a translated value"""
@@ -401,7 +458,10 @@ class FnTranslator:
                 if list(rty) != list(tys):
                     raise Refuse('%s: %s returns %s, the spec yields %s' % (self.rel, e.func.id, rty, tys))
                 return ('(%s ++ [%s])' % (env['yield__'][0], term), 'Y')
-            elts = e.elts if isinstance(e, ast.Tuple) else [e]
+            if getattr(self, 'yield_record', None):
+                elts = self.record_fields(e, self.yield_record)      # [loop ties C06] a namedtuple, read on declared fields
+            else:
+                elts = e.elts if isinstance(e, ast.Tuple) else [e]
             sv = getattr(self, 'slice_views', None)
             if sv:
                 # [loop ties C16] spec key `slice_views=dict(base='t.data.iloc', wrappers=['t.as_dataframe'], length='len(t)')`:
@@ -430,6 +490,29 @@ class FnTranslator:
             vals = [self.coerce(self.expr(x, env), t) for x, t in zip(elts, tys)]
             item = '(' + ', '.join(vals) + ')' if len(vals) > 1 else vals[0]
             return ('(%s ++ [%s])' % (env['yield__'][0], item), 'Y')
+        if n.keywords and isinstance(f, ast.Attribute) and f.attr in ('ones', 'zeros') and isinstance(f.value, ast.Name) \
+                and f.value.id in ('np', 'numpy') and getattr(self, 'element', None) and len(n.args) == 1 \
+                and [k.arg for k in n.keywords] == ['dtype'] and ast.unparse(n.keywords[0].value) in ('np.bool_', 'bool', 'numpy.bool_'):
+            # [loop ties C07] np.ones(n, dtype=np.bool_) / np.zeros(...) read for one element of the declared array length
+            if ast.unparse(n.args[0]) != self.element['length']:
+                raise Refuse('%s: %s is not an array of the declared element length %s' % (self.rel, ast.unparse(n), self.element['length']))
+            return ('true' if f.attr == 'ones' else 'false', 'B')
+        if n.keywords and isinstance(f, ast.Attribute) and f.attr == 'clip' and not n.args \
+                and all(k.arg in ('lower', 'upper') for k in n.keywords) and len({k.arg for k in n.keywords}) == len(n.keywords):
+            # [loop ties C07] x.clip(lower=a) = max(x, a) ; x.clip(upper=b) = min(x, b) ; both = clip(x, a, b)  (numbers)
+            v = self.expr(f.value, env)
+            kw = {k.arg: self.expr(k.value, env) for k in n.keywords}
+            if v[1] not in ('Z', 'Q') or any(x[1] not in ('Z', 'Q') for x in kw.values()):
+                raise Refuse('%s: .clip(lower=/upper=) on types %s' % (self.rel, [v[1]] + [x[1] for x in kw.values()]))
+            if len(kw) == 2:
+                return self.clip(v, kw['lower'], kw['upper'])
+            which, bnd = next(iter(kw.items()))
+            x, y, ty = self.num2(v, bnd)
+            if ty == 'Z':
+                return ('(Z.%s %s %s)' % ('max' if which == 'lower' else 'min', x, y), 'Z')
+            if which == 'lower':          # numpy maximum(x, lo)
+                return ('(if Qle_bool %s %s then %s else %s)' % (y, x, x, y), 'Q')
+            return ('(if Qle_bool %s %s then %s else %s)' % (x, y, x, y), 'Q')
         if n.keywords:
             if isinstance(f, ast.Name) and f.id in self.specs and all(k.arg for k in n.keywords):
                 # keyword arguments to a function translated in the same module: placed by parameter name
@@ -550,6 +633,10 @@ class FnTranslator:
                 # [loop ties C16-C18] abs of an optional number: NaN stays NaN (as the .abs() method below)
                 return self.lift(args, lambda vs: ('(Qabs %s)' % self.toQ(vs[0]), 'Q') if vs[0][1] != 'Z'
                                  else ('(Z.abs %s)' % vs[0][0], 'Z'))
+            if f.id == 'len' and len(args) == 1 and args[0][1] in ('LZ', 'LS'):
+                return ('(Z.of_nat (length %s))' % args[0][0], 'Z')          # [loop ties C06] len of a list value
+            if f.id == 'len' and len(args) == 1 and args[0][1] == 'S':
+                return ('(Z.of_nat (String.length %s))' % args[0][0], 'Z')   # [loop ties C12] len of a string (ASCII: chars = bytes)
             if f.id == 'abs' and len(args) == 1:
                 if args[0][1] == 'Z':
                     return ('(Z.abs %s)' % args[0][0], 'Z')
@@ -590,6 +677,43 @@ class FnTranslator:
                 return ('(%s%s %s)' % (sp['coq'], '', ' '.join(out)), sp['ret'])
             raise Refuse('%s: call to unsupported function %s' % (self.rel, f.id))
         raise Refuse('%s: unsupported call' % self.rel)
+
+    def record_fields(self, e, rec):
+        """[loop ties C06] `yield_record=dict(base='row', fields=['start', 'end'])`: the iteration yields namedtuples made
+        from the record `base`: `yield base` or `yield base._replace(f1=v1, ...)` with every replaced field among the
+        declared ones.  The yielded value is read on the declared fields (in that order): a replaced field is its new
+        value, any other declared field is `base.f` (which must be a parameter); every field NOT declared is, by the
+        meaning of namedtuple._replace, that of `base` itself.  Anything else (another base, positional arguments,
+        `**mapping`, a replaced field that is not declared) is refused."""
+        base, fields = rec['base'], list(rec['fields'])
+        def attr(f):
+            return ast.Attribute(value=ast.Name(id=base, ctx=ast.Load()), attr=f, ctx=ast.Load())
+        if isinstance(e, ast.Name) and e.id == base:
+            return [attr(f) for f in fields]
+        if isinstance(e, ast.Call) and isinstance(e.func, ast.Attribute) and e.func.attr == '_replace' \
+                and isinstance(e.func.value, ast.Name) and e.func.value.id == base and not e.args:
+            kw = {}
+            stars = [k for k in e.keywords if k.arg is None]
+            for k in e.keywords:
+                if k.arg is None:
+                    continue
+                if k.arg not in fields or k.arg in kw:
+                    raise Refuse('%s: %s._replace with a field outside the declared record fields %s' % (self.rel, base, fields))
+                kw[k.arg] = k.value
+            if stars:
+                # [loop ties C06] `base._replace(f1=v1, .., fn=vn, **mapping)` with EVERY declared field given explicitly
+                # (spec: yield_record star=True): Python raises TypeError ("multiple values for keyword argument") when
+                # the mapping holds one of f1..fn -- an error path outside the translation, recorded -- so on every other
+                # path the declared fields of the yielded record are exactly v1..vn.  The fields NOT declared are then
+                # those of base._replace(**mapping), not necessarily base's: the reading says nothing about them.
+                if not rec.get('star') or len(stars) != 1 or any(f not in kw for f in fields):
+                    raise Refuse('%s: %s._replace with a **mapping (only with star=True and every declared field explicit)'
+                                 % (self.rel, base))
+                g = 'the mapping %s holds one of %s   (TypeError at %s)' % (ast.unparse(stars[0].value), fields, ast.unparse(e))
+                if g not in self.guards:
+                    self.guards.append(g)
+            return [kw.get(f, attr(f)) for f in fields]
+        raise Refuse('%s: the yielded value %s is not %s / %s._replace(...)' % (self.rel, ast.unparse(e), base, base))
 
     def clip(self, v, lo, hi):
         x, l, ty = self.num2(v, lo)
@@ -752,6 +876,12 @@ class FnTranslator:
                 if isinstance(sl, ast.Constant) and isinstance(sl.value, str):
                     out.append(ast.Assign(targets=[tgt], value=val))          # tbl['col'] = e : variable tbl['col']
                     continue
+                if isinstance(sl, ast.Slice) and getattr(self, 'element', None):
+                    # [loop ties C07/C14] arr[:e] (op)= v / arr[e:] (op)= v / arr[a:b] (op)= v (also through .iloc) read for
+                    # the ONE element at position `index` of an array of length `length` (spec key `element`): a masked store
+                    # whose mask is "the element's position lies in the slice", with Python's meaning of negative bounds
+                    out.append(self.element_slice_store(s, tgt, sl, val))
+                    continue
                 if isinstance(sl, ast.Tuple) and len(sl.elts) == 2 and isinstance(sl.elts[1], ast.Constant) \
                         and isinstance(sl.elts[1].value, str):
                     base = tgt.value.value if isinstance(tgt.value, ast.Attribute) and tgt.value.attr == 'loc' else tgt.value
@@ -779,6 +909,33 @@ class FnTranslator:
     @staticmethod
     def as_load(n):
         return ast.parse(ast.unparse(n), mode='eval').body
+
+    def element_slice_store(self, s, tgt, sl, val):
+        """[loop ties C07/C14] `x[a:b] = v` for the element at position i (0 <= i < n) of the length-n array x:
+        x = (v if lo(a) <= i < hi(b) else x), where a bound e >= 0 stands for itself and e < 0 for n + e (exactly Python's
+        slice on 0 <= i < n: the clamping of out-of-range bounds to [0, n] does not change the truth value for such i).
+        A step is refused.  `x.iloc[a:b]` is the positional slice of the Series x itself."""
+        if sl.step is not None:
+            raise Refuse('%s: slice store with a step' % self.rel)
+        idx, n = self.element['index'], self.element['length']
+        base = tgt.value.value if isinstance(tgt.value, ast.Attribute) and tgt.value.attr == 'iloc' else tgt.value
+        if not isinstance(base, ast.Name):
+            raise Refuse('%s: slice store into %s (only a named array)' % (self.rel, ast.unparse(tgt.value)))
+        def bound(e):
+            t = ast.unparse(e)
+            return '((%s) if (%s) >= 0 else (%s) + (%s))' % (t, t, n, t)
+        parts = []
+        if sl.lower is not None:
+            parts.append('(%s) >= %s' % (idx, bound(sl.lower)))
+        if sl.upper is not None:
+            parts.append('(%s) < %s' % (idx, bound(sl.upper)))
+        mask = ast.parse(' and '.join(parts) if parts else 'True', mode='eval').body
+        col = self.as_load(base)
+        if isinstance(s, ast.AugAssign):
+            val = ast.BinOp(left=self.as_load(base), op=s.op, right=s.value)
+        ife = ast.IfExp(test=mask, body=val, orelse=col)
+        ife._elem_store = True
+        return ast.Assign(targets=[ast.Name(id=base.id, ctx=ast.Store())], value=ife)
 
     def target_key(self, t):
         if isinstance(t, ast.Name):
@@ -960,7 +1117,59 @@ class FnTranslator:
             if len(nms) == 1:
                 return '(let %s := %s in\n   %s)' % (nms[0], whole, body)
             return "(let '(%s) := %s in\n   %s)" % (', '.join(nms), whole, body)
+        if isinstance(s, ast.For) and getattr(self, 'yield_types', None) and 'yield__' in env:
+            return self.yield_only_for(s, rest, env, ret)          # [loop ties C06]
         raise Refuse('%s: unsupported statement %s' % (self.rel, type(s).__name__))
+
+    def yield_only_for(self, s, rest, env, ret):
+        """[loop ties C06] an inner `for a, b in zip(X, Y):` / `for a in X:` over integer lists (LZ) whose body does nothing
+        but yield (ifs of yields, log lines): the values it yields, iteration after iteration, are
+        flat_map (fun '(a, b) => <yields of one pass>) (combine X Y)   (zip stops at the shorter list, as combine does).
+        The body may assign nothing else and may not leave the loop; the loop variables are unbound afterwards (Python
+        keeps the last pass's values: a later read is refused rather than guessed)."""
+        if s.orelse:
+            raise Refuse('%s: inner loop with an else clause' % self.rel)
+        tg = s.target.elts if isinstance(s.target, ast.Tuple) else [s.target]
+        if not all(isinstance(t, ast.Name) for t in tg) or len({t.id for t in tg}) != len(tg):
+            raise Refuse('%s: inner loop target %s' % (self.rel, ast.unparse(s.target)))
+        it = s.iter
+        if isinstance(it, ast.Call) and isinstance(it.func, ast.Name) and it.func.id == 'zip' and not it.keywords \
+                and len(it.args) == len(tg) == 2 and isinstance(s.target, ast.Tuple):
+            lists = [self.expr(a, env) for a in it.args]
+        elif len(tg) == 1 and not isinstance(s.target, ast.Tuple):
+            lists = [self.expr(it, env)]
+        else:
+            raise Refuse('%s: inner loop over %s (only zip of two integer lists / one integer list)' % (self.rel, ast.unparse(it)))
+        if any(l[1] != 'LZ' for l in lists):
+            raise Refuse('%s: inner loop over values of types %s' % (self.rel, [l[1] for l in lists]))
+        body = self.desugar(list(s.body))
+        for x in ast.walk(ast.Module(body=body, type_ignores=[])):
+            if isinstance(x, (ast.Break, ast.Continue, ast.Return, ast.For, ast.While)):
+                raise Refuse('%s: inner loop body with %s' % (self.rel, type(x).__name__))
+        envi = dict(env)
+        names = [self.new(t.id) for t in tg]
+        for t, nm in zip(tg, names):
+            envi[t.id] = (nm, 'Z')
+        envi['yield__'] = ('(@nil (%s))' % ' * '.join(COQTY[t] for t in self.yield_types), 'Y')
+        keys = self.assigned_keys(body, envi)
+        # besides yielding, the body may bind names that are unbound before the loop: they live inside one pass (after
+        # the loop they are unbound in this reading -- Python keeps the last pass's value -- so a later read is refused)
+        if keys is None or any(k != 'yield__' and (k in env or k in [t.id for t in tg]) for k in keys):
+            raise Refuse('%s: inner loop body that does more than yield (assigns %s)' % (self.rel, keys))
+        lets, finals = self.branch_values(body, envi, ['yield__'])
+        one = finals[0][0]
+        for nm, term in reversed(lets):
+            one = '(let %s := %s in %s)' % (nm, term, one)
+        if len(lists) == 2:
+            fm = "(flat_map (fun '(%s, %s) => %s) (combine %s %s))" % (names[0], names[1], one, lists[0][0], lists[1][0])
+        else:
+            fm = '(flat_map (fun %s => %s) %s)' % (names[0], one, lists[0][0])
+        nm = self.new('yield')
+        env2 = dict(env)
+        for t in tg:
+            env2.pop(t.id, None)
+        env2['yield__'] = (nm, 'Y')
+        return '(let %s := (%s ++ %s) in\n   %s)' % (nm, env['yield__'][0], fm, self.block(rest, env2, ret))
 
     def assigned_keys(self, stmts, env):
         """keys assigned by a block made only of assignments and nested ifs of such blocks (None otherwise)"""
@@ -1008,6 +1217,11 @@ class FnTranslator:
             return t.id
         if isinstance(t, ast.Subscript) and not isinstance(t.slice, (ast.Tuple, ast.Slice)):
             return ast.unparse(t)
+        if isinstance(t, ast.Attribute) and isinstance(t.value, ast.Name) and t.value.id in getattr(self, 'attr_store_ok', ()):
+            # [loop ties C07] `a.b = e`: the variable named `a.b` (later reads of a.b see e).  Only for the names the spec
+            # lists in `attr_stores`, and only when `a` is never aliased by a plain `x = a` / `a = x` in the function
+            # (checked in function()): another name for the same object would not see the store in this reading
+            return ast.unparse(t)
         return None
 
     def branch_values(self, stmts, env, names):
@@ -1028,9 +1242,15 @@ class FnTranslator:
                 keys = [k for k in self.assigned_keys([s], env) if not self.is_tuple_tmp(k)]
                 kt = self.assigned_keys(s.body, env) or []
                 ke = self.assigned_keys(s.orelse, env) if s.orelse else []
+                local = []
                 for k in keys:
                     if k not in env and not (k in kt and k in (ke or [])):
-                        raise Refuse('%s: %s assigned in a nested branch only and not defined before' % (self.rel, k))
+                        if k in names:
+                            raise Refuse('%s: %s assigned in a nested branch only and not defined before' % (self.rel, k))
+                        # [loop ties C07] not wanted by the enclosing if (block() lists in `names` everything read later):
+                        # a temporary of that side (a later read in this branch finds no binding and is refused)
+                        local.append(k)
+                keys = [k for k in keys if k not in local]
                 nw = self.narrowing(s.test, env)
                 if nw is not None:
                     # narrowing of an optional name inside the nested then-side, as in block()
@@ -1173,17 +1393,35 @@ class FnTranslator:
         for k, t, term in sp.get('init', []):
             env[k] = (term, t)
         self.guards = []
+        self.yield_record = sp.get('yield_record')
+        self.append_yields = sp.get('append_yields')       # [loop ties C16] see desugar
+        self.slice_views = sp.get('slice_views')           # [loop ties C16] see yield_append__ in call()
+        self.element = sp.get('element')             # [loop ties C07/C14] dict(index=<param key>, length=<param key>)
+        self.attr_store_ok = tuple(sp.get('attr_stores', ()))
+        for nm in self.attr_store_ok:
+            for x in ast.walk(fnode):
+                if isinstance(x, ast.Assign) and isinstance(x.value, ast.Name) and (
+                        x.value.id == nm or any(isinstance(t, ast.Name) and t.id == nm for t in x.targets)):
+                    raise Refuse('%s.%s: %s is aliased by `%s`; attribute stores into it are not translated'
+                                 % (self.rel, sp['name'], nm, ast.unparse(x)))
+        if sp.get('yields') and not sp.get('loop'):
+            # [loop ties C06] `yields` on a fragment: the values the fragment's statements yield, in order, are the
+            # variable `yield__` (type Y, a list of tuples of the declared types), to be named in `returns`
+            self.yield_types = list(sp['yields'])
+            COQTY['Y'] = 'list (%s)' % ' * '.join(COQTY[t] for t in self.yield_types)
+            env['yield__'] = ('(@nil (%s))' % ' * '.join(COQTY[t] for t in self.yield_types), 'Y')
+        else:
+            self.yield_types = None
         stmts = self.desugar(fnode.body)
         frag = sp.get('fragment')
         if frag:
             stmts = self.find_fragment(stmts, frag['first'], frag['last'])
             if stmts is None:
                 raise Refuse('%s.%s: fragment %r .. %r not found' % (self.rel, sp['name'], frag['first'], frag['last']))
+            if self.yield_types:
+                stmts = self.desugar(stmts)       # [loop ties C06] a fragment inside a for body: its `yield`s are desugared here
         self.loop_carried = None
         self.loop_has_break = False
-        self.yield_types = None
-        self.append_yields = sp.get('append_yields')       # [loop ties C16] see desugar
-        self.slice_views = sp.get('slice_views')           # [loop ties C16] see yield_append__ in call()
         loop = sp.get('loop')
         if loop:
             # ONE ITERATION of a for/while loop as a function of the loop-carried variables (declared in `carried` as
